@@ -114,7 +114,12 @@ func Map(page mm.Page, frame mm.Frame, flags PageTableEntryFlag) *kernel.Error {
 // mapping and returns back the Page that corresponds to the region start.
 func MapRegion(frame mm.Frame, size uintptr, flags PageTableEntryFlag) (mm.Page, *kernel.Error) {
 	// Reserve next free block in the address space
+	reqSize := size
 	size = (size + (mm.PageSize - 1)) & ^(mm.PageSize - 1)
+	if size < reqSize {
+		// rounding up to the next page boundary wrapped around
+		return 0, errEarlyReserveNoSpace
+	}
 	startPage, err := earlyReserveRegionFn(size)
 	if err != nil {
 		return 0, err
@@ -137,7 +142,12 @@ func MapRegion(frame mm.Frame, size uintptr, flags PageTableEntryFlag) (mm.Page,
 // start.
 func IdentityMapRegion(startFrame mm.Frame, size uintptr, flags PageTableEntryFlag) (mm.Page, *kernel.Error) {
 	startPage := mm.Page(startFrame)
-	pageCount := mm.Page(((size + (mm.PageSize - 1)) & ^(mm.PageSize - 1)) >> mm.PageShift)
+	roundedSize := (size + (mm.PageSize - 1)) & ^(mm.PageSize - 1)
+	if roundedSize < size {
+		// rounding up to the next page boundary wrapped around
+		return 0, errEarlyReserveNoSpace
+	}
+	pageCount := mm.Page(roundedSize >> mm.PageShift)
 
 	for curPage := startPage; curPage < startPage+pageCount; curPage++ {
 		if err := mapFn(curPage, mm.Frame(curPage), flags); err != nil {
